@@ -5,7 +5,7 @@ LEVEL = 'proof'
 UNITS = [fsutil.scandir_unit('C08')] + s3.list_units('C08') + b2.units('C08')[3:] + [l for l in local.units('C08') if l.name.endswith('list_files')] + local.small_units('C08') + [gc.delete_unit('C08'), gc.clean_unit('C08'), snapbody.download_snapshot_unit('C08')] + c18.units('C08')[:1] + loc.loc_units('C08') + loc.parts_units('C08') + [loc.chunk_loc_unit('C08')] + snapbody.load_units('C08')
 from specs import families as _families
 UNITS = _families.with_families('C08', UNITS)
-BOUNDED = [{'name': 'C08.history', 'script': 'bounded/hist.py', 'timeout': 1200, 'args': {'prop': 'C08'}, 'bound': 'random histories of snapshot/delete/clean by owner, shared-key and independent-key users (and one unencrypted user): <= 10 operations, <= 4 paths per snapshot from 6 overlapping contents, chunks 8..64, 5 (thorough: 40) seeded histories per mode, each with one of three object lifetimes (a fresh Repository per command as the CLI does / one per user / ONE object re-unlocked with the key of whoever issues the next command); every remaining snapshot is restored by its owner after each destructive step; plus (C08) one clean after a snapshot that left >= 700 (thorough: 1200) orphan chunks behind; a scripted history deleting several snapshots in ONE call (two snapshots of unchanged data sharing chunks only with each other; two with distinct chunks, both name orders); 21 (thorough: 45) snapshots then clean (references read without the loader); ONE transient I/O error while the local backend lists snapshots/ during a delete: fails with nothing removed, or completes exactly; two cleans in ONE process (same object, fresh object) around a snapshot object removed without its chunks'}]
+BOUNDED = [{'name': 'C08.stores', 'script': 'bounded/c13_stores.py', 'timeout': 900, 'bound': 'what delete / clean learn about the repository is a LISTING: the real S3-compatible, B2 and local adapters against in-memory services with pages of 3 names (and a scratch directory), seeded histories of 14 operations per service; every prefix listing is compared with a plain map (same stand-in as C13.stores)'}, {'name': 'C08.history', 'script': 'bounded/hist.py', 'timeout': 1200, 'args': {'prop': 'C08'}, 'bound': 'random histories of snapshot/delete/clean by owner, shared-key and independent-key users (and one unencrypted user): <= 10 operations, <= 4 paths per snapshot from 6 overlapping contents, chunks 8..64, 5 (thorough: 40) seeded histories per mode, each with one of three object lifetimes (a fresh Repository per command as the CLI does / one per user / ONE object re-unlocked with the key of whoever issues the next command); every remaining snapshot is restored by its owner after each destructive step; plus (C08) one clean after a snapshot that left >= 700 (thorough: 1200) orphan chunks behind; a scripted history deleting several snapshots in ONE call (two snapshots of unchanged data sharing chunks only with each other; two with distinct chunks, both name orders); 21 (thorough: 45) snapshots then clean (references read without the loader); ONE transient I/O error while the local backend lists snapshots/ during a delete: fails with nothing removed, or completes exactly; two cleans in ONE process (same object, fresh object) around a snapshot object removed without its chunks'}]
 TRUSTED = [
     'vf symbolic executor (/verif/vf): encoding of the Python subset (DESIGN 2.2)',
     'z3 5.1 (API + z3-new CLI), cvc5 1.0.3 (strings)',
